@@ -31,3 +31,12 @@ package contracts
 //@   results n err
 //@   note the io.Writer contract: 0 <= n <= len(p); p is only read.
 //@   ensures 0 <= n && n <= len(p)
+//@
+//@ extern syscall.Close
+//@   params fd
+//@   results err
+//@   note close(2): the caller must own the open descriptor; afterwards the number is free (and may be reused by anyone)
+//@   requires fdopen[fd]
+//@   ensures !fdopen[fd] && closecnt[fd] == old(closecnt[fd]) + 1
+//@   ensures forall x int :: x != fd ==> fdopen[x] == old(fdopen[x]) && closecnt[x] == old(closecnt[x])
+//@   modifies fdopen, closecnt
